@@ -4,6 +4,7 @@ CONSTANTS
  Shapes <- ShAll
  MaxFaults = 3
  MaxCrashes = 1
+ MaxIdxLoss = 0
  InlineAt = 0
  Interval = 1
  MBs = {80}
